@@ -9,7 +9,7 @@ use serde_json::{json, Value};
 
 use crate::core::{Fail, Outcome, Pass, Prop, Src};
 use crate::ensure;
-use crate::msgs::{Blob, Fixed, Nested, Text, Unit};
+use crate::msgs::{Blob, Fixed, Nested, Six, Small, Text, Unit};
 use crate::registry::{DynPart, Gen};
 
 #[derive(Debug, Clone)]
@@ -20,6 +20,8 @@ pub enum Msg {
     Nested(Nested),
     Unit(Unit),
     Status(u8, String),
+    Small(Small),
+    Six(Six),
 }
 
 #[derive(Debug, Clone)]
@@ -64,7 +66,7 @@ fn gen_bytes(src: &mut Src) -> Vec<u8> {
 }
 
 pub fn gen_msg(src: &mut Src) -> Msg {
-    match src.weighted(&[2, 2, 3, 3, 1, 1]) {
+    match src.weighted(&[2, 2, 3, 3, 1, 1, 1, 1]) {
         0 => {
             let b = src.bytes(12);
             let mut buf = [0u8; 12];
@@ -93,7 +95,14 @@ pub fn gen_msg(src: &mut Src) -> Msg {
             Msg::Nested(Nested { name: gen_string(src), inner, list, map, tail: src.word() as u16 })
         },
         4 => Msg::Unit(Unit),
-        _ => Msg::Status(src.below(5) as u8, gen_string(src)),
+        5 => Msg::Status(src.below(5) as u8, gen_string(src)),
+        6 => Msg::Small(Small { a: src.word() as u8, flag: src.chance(1, 2), b: src.word() as u8 }),
+        _ => {
+            let b = src.bytes(6);
+            let mut bytes = [0u8; 6];
+            bytes.copy_from_slice(&b);
+            Msg::Six(Six { bytes, tail: src.word() as u16, last: src.word() as u8 })
+        },
     }
 }
 
@@ -294,6 +303,8 @@ frames_for!(frames_blob, Blob);
 frames_for!(frames_nested, Nested);
 frames_for!(frames_unit, Unit);
 frames_for!(frames_status, Status);
+frames_for!(frames_small, Small);
+frames_for!(frames_six, Six);
 
 impl Prop for Frames {
     type Case = Case;
@@ -328,6 +339,8 @@ impl Prop for Frames {
             Msg::Nested(v) => frames_nested(v, &case.noise)?,
             Msg::Unit(v) => frames_unit(v, &case.noise)?,
             Msg::Status(c, m) => frames_status(&status_of(*c, m), &case.noise)?,
+            Msg::Small(v) => frames_small(v, &case.noise)?,
+            Msg::Six(v) => frames_six(v, &case.noise)?,
         };
         let mut labels = vec![];
         labels.push(match &case.msg {
@@ -337,6 +350,7 @@ impl Prop for Frames {
             Msg::Nested(_) => "type_nested",
             Msg::Unit(_) => "type_unit",
             Msg::Status(..) => "type_status",
+            Msg::Small(_) | Msg::Six(_) => "type_small_alignment",
         });
         if st.len > 4096 {
             labels.push("frame>4KiB_sampled_flips");
@@ -357,7 +371,7 @@ impl Prop for Frames {
     }
 
     fn rule(&self) -> &'static str {
-        "values of six message types (fixed-size struct, String, Vec<u8>, nested Option/Vec/BTreeMap with 0-4 or \
+        "values of eight message types (fixed-size struct, two small structs with alignment 1 / 2 and sizes 3 / 10, String, Vec<u8>, nested Option/Vec/BTreeMap with 0-4 or \
          2^k-1 / 2^k / 2^k+1 (k = 4..10) elements, unit, rpc \
          Status) from empty to 1 MiB; per value: frame round-trips through DataView::using/deserialize_view; every \
          single-bit flip (all bits for frames <= 4 KiB, 2000 bits incl. both ends beyond) is refused; every \
@@ -496,6 +510,8 @@ chunked_for!(chunked_blob, Blob);
 chunked_for!(chunked_nested, Nested);
 chunked_for!(chunked_unit, Unit);
 chunked_for!(chunked_status, Status);
+chunked_for!(chunked_small, Small);
+chunked_for!(chunked_six, Six);
 
 impl Prop for Chunked {
     type Case = ChunkCase;
@@ -542,6 +558,8 @@ impl Prop for Chunked {
                 Msg::Nested(v) => chunked_nested(v, case).await,
                 Msg::Unit(v) => chunked_unit(v, case).await,
                 Msg::Status(c, m) => chunked_status(&status_of(*c, m), case).await,
+                Msg::Small(v) => chunked_small(v, case).await,
+                Msg::Six(v) => chunked_six(v, case).await,
             }
         })?;
         let mut labels = vec![];
